@@ -95,7 +95,7 @@ TimeoutResp(c) ==
     /\ UNCHANGED <<doneW, enq, written, conf, now, nops, nresp>>
 UrgentCo == woken # <<>> \/ \E c \in Ids : \/ (st[c].pc = "waitDone" /\ doneW)
                                      \/ (st[c].pc \in {"waitNrw", "waitResp"} /\ CmdOf(c).kind = "proc"
-                                         /\ st[c].deadline <= now /\ \A i \in 1..Len(woken) : woken[i] # c
+                                         /\ st[c].deadline <= now /\ (\A i \in 1..Len(woken) : woken[i] # c)
                                          /\ (st[c].pc = "waitNrw" => Dev("LostResponseNotRetried"))
                                          /\ (st[c].pc = "waitResp" => ~Dev("LostResponseNotRetried")))
 Urgent == CanWrite \/ UrgentCo
